@@ -103,7 +103,9 @@ def _r6(ctx):
             ctx.missing("R6", f"cvode/{mth}:Solve", (CV, 0), "Naunet::Solve not found")
             continue
         body = sk.plain(fs[0].body)
-        alias = [m.start() for m in re.finditer(r"\bN_VSetArrayPointer\s*\(\s*ab\s*,\s*cv_y_\s*\)", body)]
+        ps = cstmt.params_of(fs[0].header)
+        ab = re.escape(ps[0]) if ps else "ab"
+        alias = [m.start() for m in re.finditer(r"\bN_VSetArrayPointer\s*\(\s*" + ab + r"\s*,\s*cv_y_\s*\)", body)]
         init = [m.start() for m in re.finditer(r"\bCVodeInit\s*\(\s*cv_mem_\s*,\s*\w+\s*,\s*\w+\s*,\s*cv_y_\s*\)", body)]
         ok = len(alias) == 1 and len(init) == 1 and alias[0] < init[0]
         ctx.check(ok, "R6", f"cvode/{mth}:Solve:cv_y_ wraps ab", (CV, 0),
@@ -148,9 +150,24 @@ REC, RESET = (-1, -2, -3, -4), (-6,)
 NEG = (-1, -2, -3, -4, -5, -6, -7, -8, -9, -10, -11, -22, -99)      # sample of failure flags: CVODE's own range and beyond
 
 
-def _guards(F, conds, keep=()):
-    """the `if` guards of a statement with once-defined locals (`bool ok = flag >= 0;`) replaced by their definitions"""
-    return [(g[0], tuple(F.expand(g[1], F.pos.get(id(g[3]), 0), keep=keep)), g[2], g[3]) if g[0] == "if" else g for g in conds]
+def _guards(F, conds, st, keep=()):
+    """the `if` guards statement `st` runs under that still hold when it runs -- a test on a variable that is written between
+    the test and `st` (or anywhere in a loop around `st` that the test is outside of) says nothing any more -- with
+    once-defined locals (`bool ok = flag >= 0;`) replaced by their definitions"""
+    out = []
+    sp = F.pos.get(id(st), 0)
+    loops = [g[3] for g in conds if g[0] in ("for", "while")]
+    for g in conds:
+        if g[0] != "if":
+            out.append(g)
+            continue
+        gp = F.pos.get(id(g[3]), 0)
+        toks = tuple(F.expand(g[1], gp, keep=keep))
+        names = {t for t in toks if cstmt.IDENT.match(t)}
+        stale = F.written_between(names, gp, sp) or any(F.pos.get(id(lp), 0) > gp and cstmt.written(lp) & names for lp in loops)
+        if not stale:
+            out.append((g[0], toks, g[2], g[3]))
+    return out
 
 
 def _relevant(F, g, names):
@@ -170,7 +187,7 @@ def _r2_handle_error(ctx, label, F, FLAG):
     nsucc = 0
     odd = []
     for s, c in rets:
-        g = _guards(F, c, keep=(FLAG,))
+        g = _guards(F, c, s, keep=(FLAG,))
         ifs = [x for x in g if x[0] == "if"]
         # is this an exit that can report success at all?
         v0 = cstmt.value(s[1], {FLAG: 0, **CONSTS})
@@ -423,7 +440,7 @@ def _r2_solve(ctx, label, mth):
     ok = bool(logs)
     for x, c in logs:
         # tests made before the result existed (the early returns of the set-up calls) say nothing about it
-        g = [y for y in _guards(F, c, keep=(FL,)) if y[0] == "if" and F.pos.get(id(y[3]), 0) > hei]
+        g = [y for y in _guards(F, c, x, keep=(FL,)) if y[0] == "if" and F.pos.get(id(y[3]), 0) > hei]
         ok = ok and cstmt.guards_truth(g, {FL: 1, **CONSTS}) is True and cstmt.guards_truth(g, {FL: 0, **CONSTS}) is False
     ctx.check(ok, "R2", f"{label}:Solve:initial state logged on failure", (CV, 0), f"ab_init_ is written to the error file exactly under `{FL} == NAUNET_FAIL`")
     saved = [F.pos[id(s)] for s, c in F.seq for d, src, n in (cstmt.copies(s) or []) if s[0] in ("for", "expr") and d == "ab_init_" and src == AB and n == "NEQUATIONS"]
@@ -448,68 +465,155 @@ def _r2_r3(ctx):
 
 
 def _r4(ctx):
-    ob, _ = _body(ctx, ODE, {}, "Observer::operator()")
+    ob = _func(ctx, ODE, {}, "Observer::operator()")
     if ob is None:
         ctx.missing("R4", "Observer::operator()", (ODE, 0), "observer not found")
         return
+    F = ob.fn
     thrown = None
-    for s, c in cstmt.walk(ob):
-        if s[0] == "throw":
-            guards = [cstmt.norm(g[1]) for g in c if g[0] == "if" and g[2]]
-            ok = guards in (["step_>mxsteps_"], ["mxsteps_<step_"])
-            ctx.check(ok, "R4", "Observer:budget test", (ODE, 0), "throws exactly when step_ > mxsteps_", expected="if (step_ > mxsteps_) throw ..", found=str(guards))
-            m = re.match(r"(std::\w+)", "".join(s[1]))
-            thrown = m.group(1) if m else "".join(s[1])[:40]
-    inc = any(s[0] == "expr" and cstmt.norm(s[1]) in ("step_+=1", "step_++", "++step_", "step_=step_+1") and not [g for g in c if g[0] == "if"] for s, c in cstmt.walk(ob))
-    ctx.check(inc, "R4", "Observer:counts every step", (ODE, 0), "step_ is incremented on every observer call, unconditionally")
+    # the counter is the variable the observer increments by one; the budget is what the throw compares it with
+    incs = [(i, nm) for nm, ds in F.defs.items() for i, op, rhs, decl in ds
+            if op == "++" or (op == "+=" and cstmt.norm(rhs) == "1") or (op == "=" and cstmt.norm(rhs) in (f"{nm}+1", f"1+{nm}"))]
+    for s, c in F.seq:
+        if s[0] != "throw":
+            continue
+        m = re.match(r"(std::\w+)", "".join(s[1]))
+        thrown = m.group(1) if m else "".join(s[1])[:40]
+        ifs = [g for g in _guards(F, c, s) if g[0] == "if"]
+        shown = str([("" if g[2] else "!") + "(" + cstmt.norm(g[1]) + ")" for g in ifs])
+        names = sorted({t for g in ifs for t in g[1] if cstmt.IDENT.match(t)})
+        cnt = [nm for i, nm in incs if nm in names]
+        if len(cnt) != 1 or len(names) != 2:
+            ctx.check(False, "R4", "Observer:budget test", (ODE, 0), "throws exactly when step_ > mxsteps_", expected="if (step_ > mxsteps_) throw ..", found=shown) if not names or not incs else \
+                ctx.unrec("R4", "Observer:budget test", (ODE, 0), f"cannot tell the step counter and the budget apart in {shown}")
+            continue
+        C = cnt[0]
+        M = [x for x in names if x != C][0]
+        tt = [(cv, mv, cstmt.guards_truth(ifs, {C: cv, M: mv})) for cv in range(0, 8) for mv in range(-1, 7)]
+        if any(t is None for _, _, t in tt):
+            ctx.unrec("R4", "Observer:budget test", (ODE, 0), f"cannot evaluate {shown}")
+        else:
+            wrong = [(cv, mv) for cv, mv, t in tt if t != (cv > mv)]
+            ctx.check(not wrong, "R4", "Observer:budget test", (ODE, 0), f"throws exactly when {C} > {M}", expected=f"if ({C} > {M}) throw ..",
+                      found=shown + (f" differs for ({C}, {M}) = {wrong[0]}" if wrong else ""))
+        first_test = min([F.pos.get(id(g[3]), 0) for g in ifs] or [0])
+        cpos = [i for i, nm in incs if nm == C]
+        uncond = [i for i in cpos if not [g for g in F.seq[i][1] if g[0] in ("if", "for", "while", "try", "catch")]]
+        ctx.check(bool(uncond) and len(cpos) == 1, "R4", "Observer:counts every step", (ODE, 0), f"{C} is incremented on every observer call, unconditionally")
+        ctx.check(bool(cpos) and max(cpos) < first_test, "R4", "Observer:counts before testing", (ODE, 0), "the call being observed is counted before the budget is tested",
+                  found="the budget is compared with the count of the previous call: one step more than the budget is taken")
+    if thrown is None:
+        inc = any(not [g for g in F.seq[i][1] if g[0] == "if"] for i, nm in incs)
+        ctx.check(inc, "R4", "Observer:counts every step", (ODE, 0), "step_ is incremented on every observer call, unconditionally")
     ctx.check(thrown is not None, "R4", "Observer:throws", (ODE, 0), "exceeding the budget raises an exception")
-    sb, _ = _body(ctx, OD, {}, "Naunet::Solve")
-    if sb is None:
+    sv = _func(ctx, OD, {}, "Naunet::Solve")
+    if sv is None:
         ctx.missing("R4", "odeint Solve", (OD, 0), "Solve not found")
         return
-    tries = [s for s, c in cstmt.walk(sb) if s[0] == "try"]
-    ok = False
-    found = ""
-    if len(tries) == 1:
+    SF = sv.fn
+    sb = sv.body
+    DT = sv.params[1] if sv.params and len(sv.params) >= 2 else "dt"
+    STATE = sv.params[0] if sv.params else "abund"
+    tries = [s for s, c in SF.seq if s[0] == "try"]
+    if len(tries) != 1:
+        ctx.bad("R4", "Solve:try", (OD, 0), f"expected one try block around the integration, found {len(tries)}")
+    else:
         t = tries[0]
-        inside = ["".join(x[1]) for x, _ in cstmt.walk(t[1]) if x[0] == "expr"]
-        integ = [e for e in inside if "integrate_adaptive(" in e]
+        integ = [x[1] for x, _ in cstmt.walk(t[1]) if x[0] == "expr" and "integrate_adaptive" in x[1]]
         caught = ["".join(d) for d, b in t[2]]
-        found = f"catch {caught}; thrown {thrown}"
-        types = [re.sub(r"^const|&\w*$|\w+$", "", c).strip("& ") for c in caught]
-        handler_sets = any(any(x[0] == "expr" and cstmt.norm(x[1]) == "flag=NAUNET_FAIL" for x, _ in cstmt.walk(b)) for d, b in t[2])
         type_ok = thrown is not None and any(thrown in c or "std::exception" in c or c == "..." for c in caught)
-        ok = bool(integ) and type_ok and handler_sets
         ctx.check(type_ok, "R4", "Solve catches what the observer throws", (OD, 0),
                   f"the observer throws {thrown}, which the handler catches" if type_ok else
                   f"the observer throws `{thrown}` but Solve only catches {caught}: exceeding the step budget escapes Solve instead of returning NAUNET_FAIL",
                   expected=f"catch (const {thrown} &e)", found=str(caught))
-        ctx.check(handler_sets, "R4", "handler sets failure", (OD, 0), "the handler sets flag = NAUNET_FAIL")
+        OBS = None
         if integ:
             e = integ[0]
-            args_ok = re.search(r",y,0(\.0*)?,dt,dt,observer\)$", e) is not None and "step_=integrate_adaptive(" in e
-            ctx.check(args_ok, "R4", "integrate over [0, dt] with the observer", (OD, 0), "integrate_adaptive(.., y, 0.0, dt, dt, observer)", found=e[-60:])
-    else:
-        ctx.bad("R4", "Solve:try", (OD, 0), f"expected one try block around the integration, found {len(tries)}")
-    rets = [cstmt.norm(x[1]) for x, c in cstmt.walk(sb) if x[0] == "return"]
-    ctx.check(rets == ["flag"], "R4", "odeint Solve returns flag", (OD, 0), "Solve returns the flag the handler may have set", found=str(rets))
-    init = [cstmt.norm(x[1]) for x, c in cstmt.walk(sb) if x[0] == "expr" and x[1][:3] == ["int", "flag", "="]]
-    ctx.check(init == ["intflag=NAUNET_SUCCESS"], "R4", "odeint Solve: flag starts as success", (OD, 0), "flag is NAUNET_SUCCESS unless the handler ran", found=str(init))
-    obs = any("".join(x[1]) == "Observerobserver(mxsteps_)" for x, c in cstmt.walk(sb) if x[0] == "expr")
-    ctx.check(obs, "R4", "observer gets the step budget", (OD, 0), "Observer observer(mxsteps_)")
+            k = e.index("integrate_adaptive")
+            args = cstmt._top_split(e[k + 2:-1], (",",)) if e[k + 1:k + 2] == ["("] and e[-1] == ")" else []
+            a = [cstmt.norm(x) for x in args]
+            back = [src for s, c in SF.seq if SF.pos[id(s)] > SF.pos[id(t)] and s[0] in ("for", "expr") for d, src, n in (cstmt.copies(s) or []) if d == STATE]
+            args_ok = len(a) == 7 and cstmt.IDENT.match(a[2]) and cstmt.value(args[3], {}) == 0 and a[4] == DT and a[5] == DT and cstmt.IDENT.match(a[6]) \
+                and e[:k] == ["step_", "="] and (not back or a[2] in back)
+            ctx.check(bool(args_ok), "R4", "integrate over [0, dt] with the observer", (OD, 0), f"integrate_adaptive(.., y, 0.0, {DT}, {DT}, observer)", found=cstmt.txt(e)[-90:])
+            OBS = a[6] if len(a) == 7 else None
+        else:
+            ctx.unrec("R4", "integrate over [0, dt] with the observer", (OD, 0), "no integrate_adaptive call inside the try block")
+        # ---- what Solve returns without / with a caught exception
+        top = sb[1] if sb[0] == "block" else []
+        ti = [i for i, x in enumerate(top) if x is t]
+        if not ti:
+            ctx.unrec("R4", "odeint Solve returns flag", (OD, 0), "the try block is nested in another statement: the two ways through Solve are not enumerated")
+        else:
+            before, after = ("block", top[:ti[0]]), ("block", top[ti[0] + 1:])
+
+            def final(sym, parts):
+                for pt in parts:
+                    r = sym.run(pt)
+                    if r is not None:
+                        return cstmt.value(r[1], sym._env()) if r[0] == "return" else r[0]
+                return "falls off the end"
+            try:
+                calm = final(cstmt.Sym(concrete=CONSTS), [before, t[1], after])
+                rough = []
+                for d, b in t[2]:
+                    sy = cstmt.Sym(concrete=CONSTS)
+                    r = sy.run(before)
+                    for nm in cstmt.written(t[1]):
+                        sy.s[nm] = sy.opaque(nm)
+                        sy.c.pop(nm, None)
+                    rough.append(final(sy, [b, after]) if r is None else r[0])
+            except cstmt.Unknown as ex:
+                ctx.unrec("R4", "odeint Solve returns flag", (OD, 0), f"Solve is not straight-line around the try block: {ex}")
+            else:
+                ctx.check(calm == 0, "R4", "odeint Solve: flag starts as success", (OD, 0), "Solve returns NAUNET_SUCCESS when the integration completes" if calm == 0 else
+                          "Solve does not return NAUNET_SUCCESS after a completed integration", found=str(calm)) if calm is not None else \
+                    ctx.unrec("R4", "odeint Solve: flag starts as success", (OD, 0), "cannot follow the value returned after a completed integration")
+                if any(x is None for x in rough):
+                    ctx.unrec("R4", "handler sets failure", (OD, 0), "cannot follow the value returned after a caught exception")
+                else:
+                    ok = bool(rough) and all(x == 1 for x in rough)
+                    ctx.check(ok, "R4", "handler sets failure", (OD, 0), "Solve returns NAUNET_FAIL when the handler ran" if ok else
+                              "after a caught exception (step budget exceeded) Solve does not return NAUNET_FAIL: the unfinished state is reported as a success", expected="NAUNET_FAIL (1)", found=str(rough))
+                ctx.check(calm is not None and all(x is not None for x in rough), "R4", "odeint Solve returns flag", (OD, 0), "what Solve returns is decided by whether the handler ran")
+        decl = [x[1] for x, c in SF.seq if x[0] == "expr" and OBS and OBS in x[1] and "Observer" in x[1]]
+        obs = any(cstmt.norm(d) in (f"Observer{OBS}(mxsteps_)", f"Observer{OBS}{{mxsteps_}}", f"Observer{OBS}=Observer(mxsteps_)", f"auto{OBS}=Observer(mxsteps_)") for d in decl)
+        ctx.check(obs, "R4", "observer gets the step budget", (OD, 0), "Observer observer(mxsteps_): a fresh observer per call, built from the configured budget", found=str([cstmt.txt(d) for d in decl]))
 
 
 def _r5(ctx):
     for label, rel, cfg in (("cvode", CV, {"general.method": "dense"}), ("odeint", OD, {})):
-        wb, _ = _body(ctx, rel, cfg, "Naunet::PyWrapSolve")
-        if wb is None:
+        fn = _func(ctx, rel, cfg, "Naunet::PyWrapSolve")
+        if fn is None:
             ctx.missing("R5", f"{label}:PyWrapSolve", (rel, 0), "wrapper not found")
             continue
-        stmts = list(cstmt.walk(wb))
-        call = [x for x, c in stmts if x[0] == "expr" and "Solve" in x[1]]
+        F = fn.fn
+
+        def solve_call(toks):
+            """tokens with the call `Solve(..)` replaced by the pseudo-variable __solve"""
+            for i, t in enumerate(toks):
+                if t == "Solve" and i + 1 < len(toks) and toks[i + 1] == "(" and not (i and toks[i - 1] in (".", "->")):
+                    d = 0
+                    for j in range(i + 1, len(toks)):
+                        d += toks[j] == "("
+                        d -= toks[j] == ")"
+                        if d == 0:
+                            return list(toks[:i]) + ["__solve"] + list(toks[j + 1:])
+            return None
+        call = [x for x, c in F.seq if x[0] == "expr" and solve_call(x[1])]
         stored = [cstmt.assigned_call(x[1]) for x in call]
-        var = stored[0][0] if stored and stored[0] else None
-        tested = var is not None and any(x[0] == "if" and var in x[1] and "NAUNET_FAIL" in x[1] and any(y[0] == "throw" for y, _ in cstmt.walk(x[2])) for x, c in stmts)
+        var = stored[0][0] if stored and stored[0] and stored[0][1] == "Solve" else None
+        tested = False
+        for x, c in F.seq:
+            if x[0] != "throw":
+                continue
+            ifs = []
+            for g in _guards(F, c, x, keep=(var,) if var else ()):
+                if g[0] == "if":
+                    ifs.append((g[0], tuple(solve_call(g[1]) or g[1]), g[2], g[3]))
+            envs = [{**CONSTS, "__solve": r, **({var: r} if var else {})} for r in (0, 1)]
+            if cstmt.guards_truth(ifs, envs[1]) is True and cstmt.guards_truth(ifs, envs[0]) is False:
+                tested = True
         ctx.check(bool(tested), "R5", f"{label}:PyWrapSolve tests Solve", (rel, 0),
                   "the Python wrapper raises when Solve returns NAUNET_FAIL" if tested else
                   "the Python wrapper drops the result of Solve: a failed integration returns the unfinished state as if it had succeeded",
@@ -531,8 +635,41 @@ MUTANTS = [
     {"name": "tret-not-t0", "file": CV, "old": "            cvflag        = CVode(cv_mem_, tout, cv_y_, &t0, CV_NORMAL);", "new": "            realtype tret;\n            cvflag        = CVode(cv_mem_, tout, cv_y_, &tret, CV_NORMAL);", "rules": ["R3"]},
     {"name": "substep-target-short", "file": CV, "old": "expo += (realtype)level * (realtype)step / (realtype)nsubsteps;", "new": "expo += (realtype)level * (realtype)(step - 1) / (realtype)nsubsteps;", "rules": ["R3"]},
     {"name": "reinit-flag-dropped", "file": CV, "old": "        cvflag = CVodeReInit(cv_mem_, t0, cv_y_);\n        if (CheckFlag(&cvflag, \"CVodeReInit\", 1, errfp_) == NAUNET_FAIL) {\n            return NAUNET_FAIL;\n        }\n", "new": "        cvflag = CVodeReInit(cv_mem_, t0, cv_y_);\n", "rules": ["R1"]},
+    {"name": "observer-tests-before-counting", "edits": [
+        {"file": ODE, "old": "    step_ += 1;\n    time_ = t;\n", "new": "    time_ = t;\n"},
+        {"file": ODE, "old": "        throw std::runtime_error(err);\n    }\n", "new": "        throw std::runtime_error(err);\n    }\n    step_ += 1;\n"}], "rules": ["R4"]},
+    {"name": "reset-copies-reached-state", "file": CV, "old": "                ab_tmp_[i] = ab_init_[i];\n", "new": "                ab_tmp_[i] = ab[i];\n", "rules": ["R3"]},
+    {"name": "reinit-at-reached-time", "file": CV, "old": "        t0 = 0.0;\n        for (int i = 0; i < NEQUATIONS; i++) {\n            ab[i] = ab_tmp_[i];", "new": "        for (int i = 0; i < NEQUATIONS; i++) {\n            ab[i] = ab_tmp_[i];", "rules": ["R3"]},
+    {"name": "fatal-flag-retried", "file": CV, "old": "        } else if (cvflag < 0) {\n            fprintf(\n                errfp_,\n                \"The error cannot be recovered by Naunet! Exit from Naunet!\\n\");", "new": "        } else if (cvflag < -7) {\n            fprintf(\n                errfp_,\n                \"The error cannot be recovered by Naunet! Exit from Naunet!\\n\");", "rules": ["R3"]},
+    {"name": "substeps-stop-one-short", "file": CV, "old": "for (int step = 1; step < nsubsteps + 1; step++) {", "new": "for (int step = 1; step < nsubsteps; step++) {", "rules": ["R3"]},
+    {"name": "success-guard-weakened", "file": CV, "old": "        // if CVode succeeded, leave the loop\n        if (cvflag >= 0) {", "new": "        // if CVode succeeded, leave the loop\n        if (cvflag >= -1) {", "rules": ["R2"]},
     {"name": "odeint-wrapper-drops-flag", "file": OD, "old": "    int flag             = Solve(abund, dt, data);\n    if (flag == NAUNET_FAIL) {\n        throw std::runtime_error(\"Something unrecoverable occurred\");\n    }\n\n    return py::array_t<double>(info.shape, abund);", "new": "    Solve(abund, dt, data);\n\n    return py::array_t<double>(info.shape, abund);", "rules": ["R5"]},
 ]
 BENIGN = [
     {"name": "dt-assign-form", "file": CV, "old": "            dt -= t0;\n", "new": "            dt = dt - t0;\n"},
+    {"name": "state-copies-in-a-helper", "edits": [
+        {"file": CV, "old": "int Naunet::HandleError(int cvflag,", "new": "static void CopyAll(realtype *to, const realtype *from) {\n    for (int k = 0; k < NEQUATIONS; k++) {\n        to[k] = from[k];\n    }\n}\n\nint Naunet::HandleError(int cvflag,"},
+        {"file": CV, "old": "            for (int i = 0; i < NEQUATIONS; i++) {\n                ab_tmp_[i] = ab[i];\n            }\n            dt -= t0;", "new": "            CopyAll(ab_tmp_, ab);\n            dt -= t0;"},
+        {"file": CV, "old": "        t0 = 0.0;\n        for (int i = 0; i < NEQUATIONS; i++) {\n            ab[i] = ab_tmp_[i];\n        }\n", "new": "        t0 = 0.0;\n        CopyAll(ab, ab_tmp_);\n"}]},
+    {"name": "state-copies-by-memcpy", "file": CV, "old": "            for (int i = 0; i < NEQUATIONS; i++) {\n                ab_tmp_[i] = ab_init_[i];\n            }\n", "new": "            memcpy(ab_tmp_, ab_init_, NEQUATIONS * sizeof(realtype));\n"},
+    {"name": "flag-classified-into-named-tests", "edits": [
+        {"file": CV, "old": "        if (cvflag < 0 && cvflag > -5) {\n", "new": "        const bool keep_going = -5 < cvflag && cvflag <= -1;\n        const bool start_over = -6 == cvflag;\n        if (keep_going) {\n"},
+        {"file": CV, "old": "        } else if (cvflag == -6) {\n", "new": "        } else if (start_over) {\n"}]},
+    {"name": "success-by-guard-clause", "file": CV, "old": "        if (cvflag >= 0) {\n            if (level > 0) {", "new": "        if (!(cvflag >= 0)) continue;\n        {\n            if (level > 0) {"},
+    {"name": "substeps-as-while", "edits": [
+        {"file": CV, "old": "        for (int step = 1; step < nsubsteps + 1; step++) {\n", "new": "        int step = 1;\n        while (step <= nsubsteps) {\n"},
+        {"file": CV, "old": "                break;\n            }\n        }\n", "new": "                break;\n            }\n            ++step;\n        }\n"}]},
+    {"name": "parameters-renamed", "edits": [
+        {"file": CV, "old": "int Naunet::HandleError(int cvflag, realtype *ab, realtype dt, realtype t0) {\n    if (cvflag >= 0) {", "new": "int Naunet::HandleError(int cvflag, realtype *ab, realtype span, realtype t0) {\n    realtype dt = span;\n    if (cvflag >= 0) {"}]},
+    {"name": "reinit-literal-zero", "file": CV, "old": "        cvflag = CVodeReInit(cv_mem_, t0, cv_y_);", "new": "        cvflag = CVodeReInit(cv_mem_, 0.0, cv_y_);"},
+    {"name": "observer-early-return", "file": ODE, "old": "    if (step_ > mxsteps_) {\n        char err[70];", "new": "    if (mxsteps_ >= step_) return;\n    {\n        char err[70];"},
+    {"name": "odeint-status-as-bool", "edits": [
+        {"file": OD, "old": "    int flag = NAUNET_SUCCESS;\n\n    vector_type y", "new": "    bool failed = false;\n\n    vector_type y"},
+        {"file": OD, "old": "        flag = NAUNET_FAIL;\n", "new": "        failed = true;\n"},
+        {"file": OD, "old": "        abund[i] = y[i];\n    }\n\n    return flag;", "new": "        abund[i] = y[i];\n    }\n\n    return failed ? NAUNET_FAIL : NAUNET_SUCCESS;"}]},
+    {"name": "odeint-names", "edits": [
+        {"file": OD, "old": "    vector_type y(NEQUATIONS);\n    for (int i = 0; i < NEQUATIONS; i++) {\n        y[i] = abund[i];\n    }\n\n    Observer observer(mxsteps_);", "new": "    vector_type state(NEQUATIONS);\n    for (int i = 0; i < NEQUATIONS; i++) {\n        state[i] = abund[i];\n    }\n\n    Observer budget(mxsteps_);"},
+        {"file": OD, "old": "y, 0.0, dt, dt, observer);", "new": "state, 0.0, dt, dt, budget);"},
+        {"file": OD, "old": "        abund[i] = y[i];\n    }\n\n    return flag;", "new": "        abund[i] = state[i];\n    }\n\n    return flag;"}]},
+    {"name": "wrapper-tests-inline", "file": OD, "old": "    int flag             = Solve(abund, dt, data);\n    if (flag == NAUNET_FAIL) {", "new": "    if (Solve(abund, dt, data) != NAUNET_SUCCESS) {"},
 ]
